@@ -3,6 +3,7 @@ from cfg import Inconclusive, op_place, show, walk, strip_casts
 from common import (atomic_op, calls_to, callee, closure_creations, closure_consumer, field_chain, fn_of,
                     find_fn, get_fn, head_sources, peel, site, guards_of, field_assigns, field_borrows,
                     field_reads, is_diverging, ret_aggregates)
+from common import bool_param, is_arg
 from props.c09 import classify
 from props.c19 import is_worker_field, canon_atom
 
@@ -64,7 +65,7 @@ def rule_restart_shape(ctx):
     if not cl:
         ctx.violation(RESTART + "|clear|0", site(fn, 0), "restart(true) does not clear the snapshot")
     for bi, t in cl:
-        g = [x for x in guards_of(fn, bi) if x[3][0] == "arg" and x[3][2] == "clear_snapshot"]
+        g = [x for x in guards_of(fn, bi) if is_arg(x[3], bool_param(fn))]
         h = fn.expr_of_operand(t["args"][1])
         from_new = h[0] == "call" and str(h[1]).endswith("Clone>::clone") and field_chain(h[2][0])[1] == ["items"] and field_chain(h[2][0])[0][0] == "arg"
         after = asg and all(fn.dominates(a[0], bi) for a in asg)
@@ -75,7 +76,7 @@ def rule_restart_shape(ctx):
                           "Snapshot::clear is not (guarded by clear_snapshot, given a clone of self.items taken after the replacement)")
     # with clear_snapshot == false nothing touches the snapshot
     for bi, si, s in field_borrows(fn, "snapshot", "Nucleo<"):
-        g = [x for x in guards_of(fn, bi) if x[3][0] == "arg" and x[3][2] == "clear_snapshot" and x[2] in ([None], [1])]
+        g = [x for x in guards_of(fn, bi) if is_arg(x[3], bool_param(fn)) and x[2] in ([None], [1])]
         if not g:
             ctx.violation(RESTART + "|snapshot-touch|1", site(fn, bi, si), "restart touches the snapshot even when clear_snapshot is false")
 
@@ -189,20 +190,21 @@ def rule_stream_switch(ctx):
     if not cr:
         raise Inconclusive("spawn closure not found")
     caps = cr[0][4]
-    if "cleared" in caps:
-        ce = ti.expr_of_operand(caps["cleared"])
-        if ce[0] == "call" and ce[1] == "State::cleared":
-            ctx.ok(site(ti, cr[0][0], cr[0][1]), "run is told `cleared` = State::cleared(self.state), the value that guarded the switch")
-        else:
-            ctx.violation(TICK_INNER + "|cleared-arg|1", site(ti, cr[0][0], cr[0][1]), "`cleared` passed to run is %s, not State::cleared(self.state)" % show(ce))
+    cleared_caps = [n_ for n_, o in caps.items() if ti.expr_of_operand(o)[0] == "call" and ti.expr_of_operand(o)[1] == "State::cleared"]
+    bool_caps = [n_ for n_, o in caps.items() if op_place(o) is not None and not op_place(o)["p"] and ti.b["locals"][op_place(o)["l"]]["ty"] == "bool"]
+    if cleared_caps:
+        ctx.ok(site(ti, cr[0][0], cr[0][1]), "run is told `cleared` = State::cleared(self.state), the value that guarded the switch")
+    elif bool_caps:
+        ctx.violation(TICK_INNER + "|cleared-arg|1", site(ti, cr[0][0], cr[0][1]), "the flag passed to run is %s, not State::cleared(self.state)" % show(ti.expr_of_operand(caps[bool_caps[0]])))
     else:
         ctx.violation(TICK_INNER + "|cleared-arg|0", site(ti, cr[0][0], cr[0][1]), "run closure does not carry the cleared flag")
+    cap_name = (cleared_caps or bool_caps or ["cleared"])[0]
     cf = get_fn(ctx.facts, "nucleo", TICK_INNER + "::{closure#0}")
     rc = [(bi, t) for bi, t in cf.calls(lambda t: callee(t) == RUN)]
     if rc:
         a = cf.expr_of_operand(rc[0][1]["args"][2])
         base, names = field_chain(a)
-        if names == ["cleared"]:
+        if names == [cap_name]:
             ctx.ok(site(cf, rc[0][0]), "closure forwards the captured cleared flag to Worker::run")
         else:
             ctx.violation(TICK_INNER + "::{closure#0}|cleared-forward|1", site(cf, rc[0][0]), "Worker::run is called with %s as `cleared`" % show(a))
@@ -279,7 +281,7 @@ def rule_run_reset(ctx):
         t = run.blocks[bi]["term"]
         if t["k"] == "switch":
             e = run.expr_of_operand(t["discr"])
-            if e[0] == "arg" and e[2] == "cleared":
+            if is_arg(e, bool_param(run)):
                 edges.append((bi, t["otherwise"]))
     if not edges:
         ctx.violation(RUN + "|cleared-branch|0", site(run, 0), "run ignores its `cleared` argument: indices and matches of the old stream are reused against the new one")
